@@ -277,6 +277,16 @@ def _list_cover(run: Run, prog: Program, model: Model, tier: str) -> None:
                 # typed / untyped: element list built by a loop over the whole value
                 whole = any(e.kind == "loop" and e.func == f.qualname and e.data["iterable"].key() == "value" for e in p.events)
                 empty = isinstance(el, ListV) and not el.items
+                if isinstance(el, Term) and el.op == "listcomp" and len(el.args) >= 2 and isinstance(el.args[1], Term) \
+                        and el.args[1].op == "src" and el.args[1].args[0].key() == "value":
+                    # [f(val) for val in value]: one member per position; an `if` clause may drop positions
+                    if len(el.args) > 2:
+                        undecided.append("the element list is a filtered comprehension over the value")
+                        continue
+                    k = el.args[0].key() if isinstance(el.args[0], V) else ""
+                    if not (k.startswith(("native(", "subst(")) or "@value" in k or is_ell(el.args[0])):
+                        probs.append(f"element {k[:40]} is not derived from a member of the value")
+                    continue
                 if not whole and not empty:
                     probs.append("element list is not built from a loop over the whole value")
                 if isinstance(el, ListV):
